@@ -34,12 +34,15 @@ class YinYang(base.Rule):
     def shapes(self, tier):
         s = [(1, 1), (1, 2), (2, 1), (1, 3), (3, 1), (2, 2), (2, 3), (3, 2), (3, 3)]
         if tier == "quick":
-            return s + [(3, 4), (4, 3)]
+            # on boards up to 3x3 the 2x2 rules alone already force both colours to be connected; the smallest boards where
+            # connectivity bites are 3x4 / 4x3 with >= 2 givens, reached under the quick cap by one-colour alphabets
+            return s + [(3, 4), (4, 3), (3, 4, 1), (4, 3, 2)]
         return s + [(1, 4), (4, 1), (2, 4), (4, 2), (3, 4), (4, 3), (4, 4)]
 
     def instances(self, shape, cap):
-        h, w = shape
-        lays, k = base.layouts(h * w, 0, [1, 2], cap)
+        """shape (h, w): cap rule over 0 | 1 2; shape (h, w, c): cap rule over 0 | c (givens of one colour only)."""
+        h, w = shape[0], shape[1]
+        lays, k = base.layouts(h * w, 0, [1, 2] if len(shape) == 2 else [shape[2]], cap)
         for cells in lays:
             yield {"height": h, "width": w, "problem": base.grid(cells, h, w)}
 
